@@ -7,7 +7,7 @@ from .common import setup, report_issues, where
 
 LEVEL = "proof"
 PID = "C11"
-ITER = ("call", "<Vec<Node> as iter::IntoIterator>::into_iter", ("C0",))
+ITER = ("call", "iter", ("C0",))
 LEN = ("call", "Vec::len", ("C0",))
 AGG = {"eval_f64": ["Min", "Max", "Avg", "Med"], "eval_i64": ["Min", "Max", "Avg", "Med", "Gcd", "Lcm"], "eval_decimal": ["Min", "Max", "Avg", "Med"], "eval_number": ["Min", "Max", "Avg", "Med"]}
 SURFACE = {"Min": "min(", "Max": "max(", "Avg": "avg(", "Med": "med(", "Gcd": "gcd(", "Lcm": "lcm("}
